@@ -221,6 +221,7 @@ def run(prog, chk):
                                 "the descent moves to `%s->%s` under %s; keys greater than a node belong to its right subtree, smaller ones to its left "
                                 "(in-order iteration and find() stop agreeing)" % (node, side, [x for x in facts if "key" in x[0]]))
     subtree_start(prog, chk)
+    double_rotation_table(prog, chk)
     C.parent_pairing(prog, chk, "C01.h", TREE)
     from .. import containers
     containers.link_idiom(prog, chk, "C01.d1", TREE)
@@ -295,3 +296,63 @@ def subtree_start(prog, chk):
 def run_thorough(prog, chk):
     from . import c01_sib
     c01_sib.run(prog, chk)
+
+
+def double_rotation_table(prog, chk):
+    """C01.j — FIN: shiftl/shiftr perform the inner (double) rotation exactly when the pivot child leans towards the inside.
+    Slots read from the code: sign of `slope` (updateHeightAndSlope: slope = leftHeight - rightHeight), the pivot child (the child whose
+    slope the shift tests), inner/outer rotation callees."""
+    chk.rule("C01.j", "FIN: for pivot-child slope in {-1, 0, +1} the shift helpers rotate the child first exactly when it leans towards the inside "
+                      "(double rotation), then rotate the top the other way; a balanced child takes the single rotation", floor=4)
+    for cls in TREE:
+        for tn, fs in sorted(C.class_insts(prog, cls).items()):
+            if not tn.startswith(cls + "<int"):
+                continue
+            upd = [f for f in prog.functions.values() if f.short == "updateHeightAndSlope" and (f.cls or "").startswith(tn)]
+            sign = None
+            for f in upd:
+                for s in q.stores(f):
+                    if q.no_casts(f.r(s.lhs)).endswith("slope") and s.rhs is not None:
+                        t = q.no_casts(q.xr(f, s.rhs, q.local_defs(f))).replace(" ", "")
+                        if re.search(r"left.*-.*right", t):
+                            sign = 1
+                        elif re.search(r"right.*-.*left", t):
+                            sign = -1
+            if sign is None:
+                raise AnalysisBroken("%s: sign convention of `slope` not found in updateHeightAndSlope" % tn)
+            for f in [f for f in fs if f.short in ("shiftl", "shiftr") and f.cls == tn]:
+                where = "%s:%s" % (f.file, f.line)
+                conds = [b for b in f.blocks.values() if b.get("cond") is not None and len(b["succ"]) == 2]
+                m = None
+                for b in conds:
+                    for i in f.desc(b["cond"]):
+                        n = f.nodes[i]
+                        if n["k"] == "MemberExpr" and n.get("m") == "slope":
+                            mm = re.search(r"->(left|right)->slope$", q.no_casts(f.r(i)))
+                            if mm:
+                                m = (b, i, mm.group(1))
+                if m is None or len(conds) != 1:
+                    chk.bad("C01.j", f, "shift-shape", where, "%s must test the slope of exactly one child of the top node" % f.short)
+                    continue
+                b, slope_node, side = m
+                inner_want = "rotl" if side == "left" else "rotr"
+                outer_want = "rotr" if side == "left" else "rotl"
+                bad = None
+                for v in (-1, 0, 1):
+                    seen, end = fin.walk(f, f.entry, {fin.key(f, slope_node): v}, stop_at_loop_back=False)
+                    rots = [f.nodes[e]["callee"].split("::")[-1] for e in seen if f.nodes[e]["k"] == "CallExpr" and re.search(r"::rot[lr]$", f.nodes[e].get("callee", ""))]
+                    # the child leans towards the inside when its slope points away from its own side
+                    inside = (sign * v < 0) if side == "left" else (sign * v > 0)
+                    want = ([inner_want] if inside else []) + [outer_want]
+                    if isinstance(end, str) and end.startswith("undetermined"):
+                        bad = (v, "the branch is not decided by the child's slope (%s)" % end)
+                        break
+                    if rots != want:
+                        bad = (v, "performs %s, required %s" % (" then ".join(rots) or "no rotation", " then ".join(want)))
+                        break
+                if bad:
+                    chk.bad("C01.j", f, "double-rotation-decision:%+d" % bad[0], where,
+                            "%s with %s child slope %+d %s: a wrong choice leaves a node with |slope| = 2 that the upward loop never repairs, the "
+                            "tree degrades beyond the AVL height bound" % (f.short, side, bad[0], bad[1]), evals=3)
+                else:
+                    chk.ok("C01.j", f, "%s: child slope -1/0/+1 -> rotation sequence as required" % f.short, where, "guard evaluation under 3 valuations", evals=3)
